@@ -182,19 +182,20 @@ func c02Tree() (map[string]string, map[string][]string, map[string][]string) {
 }
 
 type c02World struct {
-	wild      *WildEntry // corpus entry whose templates take part in this schedule
-	srcs      map[string]string // all templates by name (tree names carry the .twig suffix for fs/array lookups where needed)
-	entries   []string
-	must      map[string][]string
-	mustNot   map[string][]string
-	ts        *TSet
-	dir       string
-	regNames  []string
-	parseSrcs []string
-	bigNames  []string               // >4096-byte templates with identifiers no earlier parse has seen (first parse happens in the concurrent phase)
-	bigWant   map[string]string      // name -> expected output without the trailing {{ v }} value
-	bigVals   map[string]interface{} // values of the fresh identifiers
-	bigTag    string
+	wild        *WildEntry        // corpus entry whose templates take part in this schedule
+	srcs        map[string]string // all templates by name (tree names carry the .twig suffix for fs/array lookups where needed)
+	entries     []string
+	must        map[string][]string
+	mustNot     map[string][]string
+	ts          *TSet
+	dir         string
+	regNames    []string
+	regInLoader bool
+	parseSrcs   []string
+	bigNames    []string               // >4096-byte templates with identifiers no earlier parse has seen (first parse happens in the concurrent phase)
+	bigWant     map[string]string      // name -> expected output without the trailing {{ v }} value
+	bigVals     map[string]interface{} // values of the fresh identifiers
+	bigTag      string
 }
 
 var c02BadSrcs = []string{"text {{ unclosed", "{% if v %}ok{% endif %}{# unclosed comment", "lead {% unclosed", "{% if %}x{% endif %}", "{{ }}", "{% for %}", "a{{ v|nofilter( }}",
@@ -272,6 +273,14 @@ func (p *c02) world(r *core.Rand, sched c02Schedule) (*c02World, error) {
 	}
 	sort.Strings(w.entries)
 	w.regNames = []string{"reg0", "reg1"}
+	// in every other world the loader has the names that the registration clients write (version 0): the first renders
+	// are cache misses that read the loader while RegisterString stores under the same name
+	w.regInLoader = r.Bool()
+	if w.regInLoader {
+		for _, n := range w.regNames {
+			w.srcs[n] = c02RegSrc(n, 0)
+		}
+	}
 	w.bigTag = fmt.Sprintf("bw%dx%d", r.Intn(1<<30), r.Intn(1<<30))
 	w.bigWant, w.bigVals = map[string]string{}, map[string]interface{}{}
 	for n := 0; n < 4; n++ {
@@ -606,8 +615,12 @@ func (p *c02) Run(rec *core.Recorder, seed uint64, idx int, tier string) {
 
 	// ---- concurrent phase
 	e := w.newEngine(sched)
-	for _, n := range w.regNames {
-		e.RegisterString(n, c02RegSrc(n, 0))
+	if !w.regInLoader {
+		for _, n := range w.regNames {
+			e.RegisterString(n, c02RegSrc(n, 0))
+		}
+	} else {
+		rec.Count("worlds-with-registered-names-in-loader", 1)
 	}
 	var yieldHits [8]struct {
 		n   int64
@@ -648,6 +661,31 @@ func (p *c02) Run(rec *core.Recorder, seed uint64, idx int, tier string) {
 				logs[g] = append(logs[g], c02Rec{call: c, out: out, err: failed, t0: a, t1: b, panicked: pan})
 			}
 		}(g)
+	}
+	if sched.Loader == "fs" && sched.Cache == "autoreload" {
+		// a deploy tool touching the files (newer modification time, same content) while they are being rendered: every
+		// call still returns what it returns alone
+		rec.Count("schedules-with-touched-files", 1)
+		var files []string
+		filepath.Walk(w.dir, func(path string, info os.FileInfo, err error) error {
+			if err == nil && !info.IsDir() {
+				files = append(files, path)
+			}
+			return nil
+		})
+		sort.Strings(files)
+		wg.Add(1)
+		go func() {
+			defer wg.Done()
+			<-start
+			base := time.Now()
+			for round := 1; round <= 40; round++ {
+				for _, f := range files {
+					os.Chtimes(f, base, base.Add(time.Duration(round)*time.Second))
+				}
+				time.Sleep(300 * time.Microsecond)
+			}
+		}()
 	}
 	close(start)
 	wg.Wait()
